@@ -321,6 +321,11 @@ pub fn gen_config(rng: &mut Rng, opts: &ConfigOpts) -> config::Encoder {
     if c.multithread && c.workers.is_none() {
         c.workers = NonZeroUsize::new(*rng.pick(&[1usize, 2, 3, 4, 8]));
     }
+    // one configuration in eight is the library's own default, untouched (what most callers use;
+    // its values come from the crate's constants, not from this generator)
+    if rng.chance(1, 8) {
+        return c;
+    }
     c.stereo_coding.use_leftside = rng.chance(3, 4);
     c.stereo_coding.use_rightside = rng.chance(3, 4);
     c.stereo_coding.use_midside = rng.chance(3, 4);
@@ -341,12 +346,15 @@ pub fn gen_config(rng: &mut Rng, opts: &ConfigOpts) -> config::Encoder {
             },
         }
     };
-    sf.prc.max_parameter = match rng.usize_below(4) {
-        0 => 14,
-        1 => rng.urange(0, 14),
-        _ => rng.urange(6, 14),
+    if rng.chance(4, 5) {
+        // (otherwise: the default Rice limit, taken from the crate's constant)
+        sf.prc.max_parameter = match rng.usize_below(4) {
+            0 => 14,
+            1 => rng.urange(0, 14),
+            _ => rng.urange(6, 14),
+        }
+        .max(opts.min_max_parameter);
     }
-    .max(opts.min_max_parameter);
     sf.qlpc.lpc_order = match rng.usize_below(5) {
         0 => 1,
         1 => 24,
